@@ -53,15 +53,38 @@ def run(run, binfo):
     tier, rng = run.tier, run.rng
     nsets = 150 if tier == 'quick' else 3000
     cases, meta = [], []
+    curated = [
+        # a reference as a late operand of an or-chain, followed by `and`, defined by an or-expression; the operand of
+        # the `and` is a role none of the other operands mention
+        {'p': 'role:r0 or role:r0 or rule:b and role:r0', 'b': 'role:r1 or role:r2'},
+        {'p': 'role:r0 or not role:r1 or rule:b and role:r0', 'b': 'role:r1 or role:r2'},
+        {'p': 'role:r2 or role:r2 or role:r2 or rule:b and role:r2', 'b': 'role:r0 or role:r1'},
+        {'p': 'role:r0 or rule:b or rule:c and role:r0', 'b': 'role:r0 or role:r0', 'c': 'role:r1 or role:r2'},
+        {'p': 'role:r0 or role:r0 or rule:b and rule:c', 'b': 'role:r1 or role:r2', 'c': 'role:r0 or role:r0'},
+        {'p': '(role:r0 or role:r0 or rule:b and role:r0) and @', 'b': 'role:r1 or role:r2'},
+        {'p': 'role:r0 or role:r0 or rule:d and role:r0', 'd': 'rule:b', 'b': 'role:r1 or role:r2'},
+        {'p': 'role:r0 and role:r0 and rule:b or role:r0', 'b': 'role:r1 and role:r2'},
+        {'p': 'rule:b and rule:b or rule:b', 'b': 'role:r0 or role:r1 and role:r2'},
+        {'p': 'role:r0 and rule:b and rule:c or role:r2 and rule:b', 'b': 'role:r1 and role:r2', 'c': 'not rule:b and role:r0'},
+    ]
     for s_i in range(nsets):
-        names, rules = gen_ruleset(rng, rng.randint(2, 6))
+        if s_i < len(curated):
+            rules = dict(curated[s_i])
+            names = list(rules)
+        else:
+            names, rules = gen_ruleset(rng, rng.randint(2, 6))
         default = rng.choice([('none',), ('name', 'default'), ('name', 'nodefault'), ('check', 'role:r1'),
                               ('check', '@'), ('check', 'not role:r0'), ('check', 'role:r0 or role:r2')])
         custom = {'c4a': rng.random() < 0.5, 'c3a': rng.random() < 0.5, 'c4b': rng.random() < 0.5}
         # metamorphic partner: inline one reference in one rule
         refs = [(n, m) for n in names for m in names if ('rule:' + m) in rules[n].split() or rules[n] == 'rule:' + m]
         partner = None
-        if refs:
+        if refs and s_i < len(curated):
+            r2 = dict(rules)
+            for n, m in refs:
+                r2[n] = inline(r2[n], m, rules[m])
+            partner = r2
+        elif refs:
             n, m = rng.choice(refs)
             r2 = dict(rules)
             r2[n] = inline(rules[n], m, rules[m])
@@ -69,7 +92,7 @@ def run(run, binfo):
                 partner = r2
         queried = names + UNDEF[:1]
         for q in queried:
-            for roles in (ROLESETS if tier == 'thorough' else rng.sample(ROLESETS, 4)):
+            for roles in (ROLESETS if (tier == 'thorough' or s_i < len(curated)) else rng.sample(ROLESETS, 4)):
                 base = base_case(rules=rules, default=default, rule=('name', q), creds={'roles': roles},
                                  custom=custom)
                 others = [n for n in rules if n != q]
